@@ -57,7 +57,10 @@ REQUIRED_TRIEG = ["KV.C03TrieG.ofTableG_represents", "KV.C03TrieG.quant_trie_ref
                   "KV.C03TrieG.trie_build_represents_array", "KV.C03TrieG.trie_end_to_end_array", "KV.C03TrieG.train_qok",
                   "KV.C03TrieG.train_exact", "KV.C03TrieG.quant_exact_agree", "KV.C03TrieG.trie_end_to_end_quant_exact",
                   "KV.C03TrieG.k_shape_array", "KV.C03TrieG.k_shape_quant", "KV.C03TrieG.k_shape_quant_array",
-                  "KV.C03TrieG.example_end_to_end_array"]
+                  "KV.C03TrieG.example_end_to_end_array", "KV.C03TrieG.shape_g", "KV.C03TrieG.k_small", "KV.C03TrieG.struct_eq_built",
+                  "KV.C03TrieG.train_markOK", "KV.C03TrieG.quant_structural_built", "KV.C03TrieG.quant_structural_end_to_end",
+                  "KV.C03TrieG.k_table_ok", "KV.C03TrieG.example_quant_structural", "KV.C03TrieG.okLaws",
+                  "KV.C03TrieG.example_end_to_end_quant_exact"]
 
 TYPE_NAMES = ["probing", "rest-probing", "trie", "quant-trie", "array-trie", "quant-array-trie"]
 
@@ -563,6 +566,9 @@ def triebuild4_stream(ctx, pair, d, arpa_bytes, grams, order, rng):
     for ty, line in zip((2, 3, 4, 5), o2):
         ctx.count(("triebuild4", ty, ab, pb, bb, hashlib.sha256(arpa_bytes).hexdigest()), nontrivial=len(toks) > 8)
         ctx.hist("triebuild4", "%s:%s" % (TYPE_NAMES[ty], "equal" if line.endswith(" equal") else "diff"))
+        if " negzero=" in line and " negzero=0 " not in line:
+            out.append(("arithmetic assumption of the structural theorem broken: the real quantiser arithmetic produced -0.0 as a back-off bin centre",
+                        {"driver": line[:300], "prob_bits": pb, "backoff_bits": bb}))
         if not (line.startswith("tbg ok") and line.endswith(" equal")):
             out.append(("the %s memory built by the Lean builder (ofTableG) differs from the search region build_binary wrote" % TYPE_NAMES[ty],
                         {"driver": line[:300], "bhiksha_bits": ab, "prob_bits": pb, "backoff_bits": bb, "ngrams": len(toks)}))
